@@ -11,8 +11,7 @@ reassembled byte-identically; a broken fragment sequence discards only that mess
 from bumble import avdtp
 from pyvc.contracts import (Any, Bool, Bytes, Callback, Inst, Int, IntRange, OneOf, Opt, contract, iff, implies, lemma,
                             model, at, ite)
-from spec.avdtp import (CONTINUE, END, SINGLE, START, header_byte, label_of, mtype_of, packets_needed, ptype_of,
-                        too_short)
+from spec.avdtp import CONTINUE, END, SINGLE, START, label_of, mtype_of, ptype_of, too_short
 
 ENVIRONMENT = [
     'AVDTP: Message.create (payload parser, C18 codec) is a recorded stub that returns a message object carrying '
@@ -226,29 +225,41 @@ def ceil_div(n, f):
 
 
 def ch_write(ghost, pdu):
-    """recording stub for l2cap_channel.write: every packet is checked as it is emitted (AVDTP 8.4)"""
-    np = ghost.np
+    """recording stub for l2cap_channel.write: every packet is checked as it is emitted (AVDTP 8.4):
+    SINGLE, or START(NOSP = n >= 2) CONTINUE^(n-2) END; same label and message type on all; each fits the MTU"""
     k = ghost.k
     t = ptype_of(pdu)
     assert len(pdu) >= 1 and len(pdu) <= ghost.mtu  # fits the peer's MTU
-    assert label_of(pdu) == ghost.label and mtype_of(pdu) == ghost.mtype  # same label and message type on every packet
-    assert k < np
-    # SINGLE, or START CONTINUE* END with the end packet being packet number NOSP
-    assert t == ite(np == 1, SINGLE, ite(k == 0, START, ite(k == np - 1, END, CONTINUE)))
-    if t == SINGLE:
-        assert len(pdu) >= 2 and pdu[1] == ghost.sid
-        frag = pdu[2:]
-    elif t == START:
-        assert len(pdu) >= 3 and pdu[1] == ghost.sid and pdu[2] == np  # announced packet count == packets really sent
-        frag = pdu[3:]
+    assert label_of(pdu) == ghost.label and mtype_of(pdu) == ghost.mtype
+    if k == 0:
+        assert t == SINGLE or t == START
+        if t == SINGLE:
+            assert len(pdu) >= 2 and pdu[1] == ghost.sid
+            ghost.np = 1
+            frag = pdu[2:]
+        else:
+            assert len(pdu) >= 3 and pdu[1] == ghost.sid and pdu[2] >= 2
+            ghost.np = pdu[2]  # announced number of signal packets
+            frag = pdu[3:]
     else:
+        assert k < ghost.np  # nothing after the single / end packet
+        assert t == ite(k == ghost.np - 1, END, CONTINUE)  # the end packet is packet number NOSP
         frag = pdu[1:]
     ghost.cat = ghost.cat + frag
     ghost.k = k + 1
 
 
+def build_tx_message(fields, builder):
+    """native replay: a real Message whose enum fields are enum members (they are printed by the debug log)"""
+    m = avdtp.Message()
+    m._payload = fields['_payload']
+    m.message_type = avdtp.Message.MessageType(fields['message_type'])
+    m.signal_identifier = avdtp.SignalIdentifier(fields['signal_identifier'])
+    return m
+
+
 model('ghost:AvdtpChannel', fields=dict(peer_mtu=IntRange(4, 0xFFFF)), methods={'write': Callback('write', effect=ch_write)})
-model('bumble.avdtp:Message#tx', fields=dict(_payload=Bytes, message_type=IntRange(0, 3), signal_identifier=IntRange(0, 63)))
+model('bumble.avdtp:Message#tx', fields=dict(_payload=Bytes, message_type=IntRange(0, 3), signal_identifier=IntRange(0, 63)), build=build_tx_message)
 model('bumble.avdtp:Protocol#tx', fields=dict(l2cap_channel=Inst('ghost:AvdtpChannel')))
 TX_GHOST = dict(cat=Bytes, k=Int, np=Int, mtu=Int, label=Int, mtype=Int, sid=Int)
 
@@ -261,24 +272,30 @@ def tx_pre(self, transaction_label, message, ghost):
         ghost.label == transaction_label,
         ghost.mtype == message.message_type,
         ghost.sid == message.signal_identifier,
-        ghost.np == packets_needed(len(message._payload), ghost.mtu),
-        len(message._payload) == ghost.mtu - 2,  # TEMP
     ]
 
 
 def tx_inv(self, message, payload, packet_type, done, max_fragment_size, ghost):
     total = message._payload
     f = max_fragment_size
+    n = len(payload)
+    k = ghost.k
+    np = ghost.np
     return [
         f == ghost.mtu - 3,
         f >= 1,
-        ghost.k >= 0,
+        k >= 0,
         ghost.cat + payload == total,
-        implies(ghost.k == 0, not done and packet_type == ite(ghost.np == 1, SINGLE, START)),
-        implies(ghost.np == 1 and ghost.k > 0, done),
-        implies(ghost.np > 1, ghost.k + ceil_div(len(payload), f) == ghost.np),
-        implies(ghost.np > 1 and ghost.k > 0 and not done, len(payload) > 0 and packet_type == ite(len(payload) > f, CONTINUE, END)),
-        implies(done, len(payload) == 0 and ghost.k == ghost.np),
+        len(ghost.cat) + n == len(total),
+        # before the first packet: a single packet only if the whole payload goes into it
+        implies(k == 0, len(ghost.cat) == 0 and not done and packet_type == ite(n <= f, SINGLE, START)),
+        implies(k > 0, np >= 1),
+        implies(k > 0 and np == 1, done),
+        # the announced packet count is the number of fragments of f bytes the payload needs
+        implies(k > 0 and np > 1, (np - 1) * f < len(total) and len(total) <= np * f),
+        # every packet before the last carries exactly f bytes
+        implies(k > 0 and np > 1 and not done, len(ghost.cat) == k * f and n > 0 and packet_type == ite(n > f, CONTINUE, END)),
+        implies(done, n == 0 and k == np),
     ]
 
 
@@ -290,14 +307,14 @@ contract(
     requires=tx_pre,
     ensures=lambda self, message, ghost: [
         ghost.cat == message._payload,  # fragments concatenate to the message payload
-        ghost.k == ghost.np,  # exactly the announced number of packets
+        ghost.k == ghost.np and ghost.k >= 1,  # exactly the announced number of packets (1 for a single packet)
     ],
     ensures_names=['fragments-concatenate-to-payload', 'packet-count-as-announced'],
     raises={
         # NOSP is one octet: a message that needs more than 255 packets is refused before anything is sent
-        ValueError: lambda ghost: [ghost.np > 255, ghost.k == 0, ghost.cat == b''],
+        ValueError: lambda self, message, ghost: [ceil_div(len(message._payload), ghost.mtu - 3) > 255, ghost.k == 0, ghost.cat == b''],
     },
-    modifies=['ghost.cat', 'ghost.k'],
+    modifies=['ghost.cat', 'ghost.k', 'ghost.np'],
     invariants={0: tx_inv},
     decreases={0: lambda payload, done: len(payload) + (0 if done else 1)},
     inline=['Message.payload'],
